@@ -130,6 +130,8 @@ void harness::run_case(const eng::Raw& raw, eng::Ctx& ctx)
 	gen::Limits lim;
 	lim.maxStates = ctx.tier() ? 6 : 4;
 	lim.arity3 = true;
+	lim.overload = true;
+	lim.fanoutEvery = 8;
 	//                          indep sup abl split leaf detB degen
 	const std::vector<int> w = {6,    2,  2,  2,    1,   1,   2};
 	gen::PairCase c = gen::decode_pair(raw, lim, w);
